@@ -16,7 +16,15 @@
  *   emptyalign                       installs an alignment with zero words as the decoder's current
  *                                    alignment (what decoder_alignment would hand back for a result
  *                                    without dictionary words), through the public structs
- *   json <start> <level>             the dump line (see dump_json)
+ *   json <start> <level>             the dump line (see dump_json); <start> is strtod text or `x<16 hex digits>`
+ *                                    (a bit pattern); after `end` the line carries ` B <key>=<bits> ...`: the bit
+ *                                    patterns of every double handed to %.3f (S = start, T:<f>:<frate> =
+ *                                    start + (double)f / frate, R:<n>:<frate> = (double)n / frate,
+ *                                    P:<logp> = logmath_exp(lmath, logp)), recomputed here from the iterator values
+ *   arith <16 hex digits> <f> <frate>  `arith d=<bits of (double)f / frate> t=<bits of start + (double)f / frate>`: the
+ *                                    machine's double arithmetic for the expressions of format_seg (no decoder needed)
+ *   fmt <16 hex digits>              `fmt n0=<snprintf(NULL, 0, "%.3f", x)> n=<snprintf(buf, size, ...)> text=<hex>`
+ *                                    for the double with that bit pattern (libc alone, no decoder needed)
  *   free
  */
 #include "common.h"
@@ -40,6 +48,39 @@ static void hexs(const char *s)
     vf_print_hex(stdout, (const unsigned char *)s, strlen(s));
 }
 
+static uint64_t dbits(double x)
+{
+    uint64_t u;
+    memcpy(&u, &x, 8);
+    return u;
+}
+
+static double bits2d(const char *hex)
+{
+    uint64_t u = strtoull(hex, NULL, 16);
+    double x;
+    memcpy(&x, &u, 8);
+    return x;
+}
+
+/* the three doubles format_seg / format_align_iter / format_hyp hand to %.3f for one record */
+static void bits_rec(double utt_start, int f, int n, int frate, int logp, logmath_t *lm, int top)
+{
+    if (top)
+        printf(" S=%016llx", (unsigned long long)dbits(utt_start));
+    else
+        printf(" T:%d:%d=%016llx", f, frate, (unsigned long long)dbits(utt_start + (double)f / frate));
+    printf(" R:%d:%d=%016llx", n, frate, (unsigned long long)dbits((double)n / frate));
+    printf(" P:%d=%016llx", logp, (unsigned long long)dbits(logmath_exp(lm, logp)));
+}
+
+static void bits_aent(alignment_iter_t *it, double utt_start, int frate, logmath_t *lm)
+{
+    int st = 0, du = 0, sc;
+    sc = alignment_iter_seg(it, &st, &du);
+    bits_rec(utt_start, st, du, frate, sc, lm, 0);
+}
+
 static void dump_aent(const char *tag, alignment_iter_t *it, logmath_t *lm)
 {
     int st = 0, du = 0, sc;
@@ -60,6 +101,8 @@ static void dump_json(double start, int level)
     seg_iter_t *seg;
     int32 prob;
     int nseg = 0;
+    int frate = config_int(decoder_config(d), "frate");
+    alignment_t *al = NULL;
 
     js = decoder_result_json(d, start, level);
     if (js) {
@@ -91,8 +134,8 @@ static void dump_json(double start, int level)
     if (level) {
         /* the alignment object the JSON call itself used (it is owned by the decoder's alignment search);
          * when the call returned NULL, ask the alignment interface whether it has anything to report */
-        alignment_t *al = js ? (d->align ? ((state_align_search_t *)d->align)->al : NULL)
-                             : decoder_alignment(d);
+        al = js ? (d->align ? ((state_align_search_t *)d->align)->al : NULL)
+                : decoder_alignment(d);
         if (al == NULL)
             printf(" al=null");
         else {
@@ -109,7 +152,25 @@ static void dump_json(double start, int level)
         }
     } else
         printf(" al=none");
-    printf(" end\n");
+    printf(" end B");
+    bits_rec(start, 0, decoder_n_frames(d), frate, prob, lm, 1);
+    for (seg = decoder_seg_iter(d); seg; seg = seg_iter_next(seg)) {
+        int sf, ef;
+        seg_iter_frames(seg, &sf, &ef);
+        bits_rec(start, sf, ef + 1 - sf, frate, seg_iter_prob(seg, NULL, NULL), lm, 0);
+    }
+    if (al) {
+        alignment_iter_t *w, *p, *s;
+        for (w = alignment_words(al); w; w = alignment_iter_next(w)) {
+            bits_aent(w, start, frate, lm);
+            for (p = alignment_iter_children(w); p; p = alignment_iter_next(p)) {
+                bits_aent(p, start, frate, lm);
+                for (s = alignment_iter_children(p); s; s = alignment_iter_next(s))
+                    bits_aent(s, start, frate, lm);
+            }
+        }
+    }
+    printf("\n");
 }
 
 static int feed(const int16_t *buf, long n, long chunk)
@@ -144,6 +205,26 @@ int main(void)
         fprintf(stderr, "op: %.300s", line);
         n = vf_words(line, w, 4096);
         if (n == 0) { printf("empty\n"); fflush(stdout); continue; }
+        if (!strcmp(w[0], "arith") && n == 4) {
+            volatile double utt_start = bits2d(w[1]);
+            volatile int f = atoi(w[2]), frate = atoi(w[3]);
+            double dur = (double)f / frate;
+            double st = utt_start + (double)f / frate;
+            printf("arith d=%016llx t=%016llx\n", (unsigned long long)dbits(dur), (unsigned long long)dbits(st));
+            fflush(stdout);
+            continue;
+        }
+        if (!strcmp(w[0], "fmt") && n == 2) {
+            static char buf[512];
+            double x = bits2d(w[1]);
+            int n0 = snprintf(NULL, 0, "%.3f", x);
+            int n1 = snprintf(buf, sizeof buf, "%.3f", x);
+            printf("fmt n0=%d n=%d text=", n0, n1);
+            vf_print_hex(stdout, (unsigned char *)buf, strlen(buf));
+            printf("\n");
+            fflush(stdout);
+            continue;
+        }
         if (!strcmp(w[0], "init")) {
             config_t *c = config_init(NULL);
             char hmm[1024];
@@ -252,7 +333,7 @@ int main(void)
                 ((state_align_search_t *)d->align)->frame = d->acmod->output_frame;
             printf("barealign %d %d\n", added, d->align != NULL);
         } else if (!strcmp(w[0], "json") && n == 3) {
-            dump_json(strtod(w[1], NULL), atoi(w[2]));
+            dump_json(w[1][0] == 'x' ? bits2d(w[1] + 1) : strtod(w[1], NULL), atoi(w[2]));
         } else if (!strcmp(w[0], "free")) {
             decoder_free(d);
             d = NULL;
